@@ -177,20 +177,17 @@ class c_cleaner:
         iter_keep1.__init__(inbuffer, lineiter)
         for char in inbuffer:
             if state[-1] == "TOPLEVEL":
+                # Outside a literal a backslash escapes nothing (a line
+                # splice has been removed already): it is an ordinary, if
+                # stray, character.
                 if self.directives_only:
-                    if char == "\\":
-                        state.append("ESCAPING")
-                        obuf.append_nonspace(char)
-                    elif char == "#" and obuf.category() == "BLANK":
+                    if char == "#" and obuf.category() == "BLANK":
                         state.append("CPP_DIRECTIVE")
                         obuf.append_nonspace(char)
                     else:
                         obuf.append_char(char)
                 else:
-                    if char == "\\":
-                        state.append("ESCAPING")
-                        obuf.append_nonspace(char)
-                    elif char == "/":
+                    if char == "/":
                         state.append("FOUND_SLASH")
                     elif char == '"':
                         state.append("DOUBLE_QUOTATION")
@@ -204,10 +201,7 @@ class c_cleaner:
                     else:
                         obuf.append_char(char)
             elif state[-1] == "CPP_DIRECTIVE":
-                if char == "\\":
-                    state.append("ESCAPING")
-                    obuf.append_nonspace(char)
-                elif char == "/":
+                if char == "/":
                     state.append("FOUND_SLASH")
                 elif char == '"':
                     state.append("DOUBLE_QUOTATION")
